@@ -281,6 +281,20 @@ class BndEval:
         k = op_const(op)
         if k is not None:
             return str(k.get("v"))
+        l0 = op_local(op)
+        # a named variable (through plain copies) reads best and is stable
+        seen = set()
+        while l0 is not None and l0 not in seen:
+            seen.add(l0)
+            nm = self.f.local_name(l0)
+            if nm:
+                return "`%s`" % nm
+            ds = self.f.whole_defs(l0)
+            if len(ds) == 1 and ds[0][0] == "assign" and ds[0][3][0] == "use" and op_place(ds[0][3][1]) is not None \
+                    and not place_projs(op_place(ds[0][3][1])):
+                l0 = op_local(ds[0][3][1])
+            else:
+                break
         key = self.key(op)
 
         def show(kk):
@@ -370,6 +384,8 @@ class BndEval:
                     return ("RangeTo", ops[0])
                 if kind == "RangeInclusive":
                     return ("RangeInclusive", ops[0], ops[1])
+            if d[0] == "call" and (d[2].get("res") or "").endswith("RangeInclusive::<Idx>::new") and len(d[2]["args"]) == 2:
+                return ("RangeInclusive", d[2]["args"][0], d[2]["args"][1])
         return None
 
     def is_suffix_of(self, op, S, depth=0):
@@ -892,6 +908,123 @@ def _iter_sources(f, op, depth=0, seen=None):
     return {x for x in out if x is not None}
 
 
+INDEX_RES = re.compile(r"ops::Index<.*>>::index$|ops::IndexMut<.*>>::index_mut$")
+
+
+def _len_of(ev, f, op, coll):
+    """is the integer operand `len()` of the collection rooted at local `coll` (possibly through min(.., ..))?"""
+    ds = _call_def_through(f, op)
+    if not ds:
+        return False
+    c = ds[0][2]
+    res = c.get("res") or ""
+    if re.search(r"::len$", res) and c["args"] and _root_local(f, c["args"][0]) == coll:
+        return True
+    if re.search(r"cmp::Ord::min$|cmp::min$|::min$", res) and len(c["args"]) == 2:
+        return any(_len_of(ev, f, a, coll) for a in c["args"])
+    return False
+
+
+def r7_index_bounds(ctx):
+    r = Result("R7f", "every `v[i]` / `v[a..b]` on a Vec or slice (Index::index calls and built-in bounds checks outside expansions) is "
+                      "proven in bounds -- a comparison `i < v.len()` dominates it with `i` unmodified in between, or `i` is the "
+                      "variable of a `for i in a..v.len()` (or `.min(v.len())`) range loop -- or is in the reviewed table under a key "
+                      "that names the collection and the index expression (so a changed index expression is a new, unreviewed "
+                      "site). An index out of bounds panics in every build")
+    crate = ctx.bin
+    n = 0
+    for f in crate.real_fns():
+        facts = None
+        for bb, c in f.calls():
+            res = c.get("res") or ""
+            if not INDEX_RES.search(res) or c["span"][4].startswith("macro:") or len(c["args"]) < 2:
+                continue
+            ta = c.get("targs", [])
+            if not ta or not (ta[0].startswith(("std::vec::Vec<", "[")) or ta[0].startswith("&[")):
+                continue
+            n += 1
+            ev = BndEval(crate, f, bb)
+            facts = facts if facts is not None else _cmp_facts(f)
+            coll = _root_local(f, c["args"][0])
+            cname = "`%s`" % (f.local_name(coll) or "_") if coll is not None else "?"
+            idx = c["args"][1]
+            rng = ev.range_of(idx)
+            if rng is not None:
+                parts = [ev.descr_val(o) for o in rng[1:]]
+                idescr = {"Range": "%s..%s", "RangeInclusive": "%s..=%s", "RangeFrom": "%s..", "RangeTo": "..%s"}.get(rng[0], "%s") % tuple(parts)
+            else:
+                idescr = ev.descr_val(idx)
+            key = re.sub(r"_\d+", "_", "R7f|%s|%s[%s]" % (f.id, cname, idescr))
+            why = None
+            if rng is None and coll is not None:
+                ki = ev.key(idx)
+                var_i = ki[1] if ki[0] == "local" else None
+                for tgt, lo, hi, strict in facts:
+                    if strict is not True or tgt not in ev.dom.get(bb, set()):
+                        continue
+                    if ev.key(lo) == ki and _len_of(ev, f, hi, coll) and _unmodified_between(f, var_i, tgt, bb, ev.dom):
+                        why = "dominating `i < len()` of the same collection"
+                        break
+                if why is None:
+                    why = _range_loop_var(ev, f, bb, idx, coll)
+            if why:
+                r.ok(sample={"site": crate.span_str(c["span"]), "index": "%s[%s]" % (cname, idescr), "proof": why} if len(r.samples) < 6 else None)
+            elif key in REVIEWED:
+                r.review(key, REVIEWED[key])
+            else:
+                r.violate(key, "index %s[%s] at %s is not proven in bounds" % (cname, idescr, crate.span_str(c["span"])))
+    r.counts["vec_index_sites"] = n
+    r.floor("Vec / slice index sites", n, 8)
+    return r
+
+
+def _range_loop_var(ev, f, bb, idx, coll):
+    """idx is the payload of `Range<usize>::next()` of a range whose end is len() of coll (or a min with it)"""
+    from .r1e import NEXT_LIKE
+    l = op_local(idx)
+    seen = set()
+    while l is not None and l not in seen:
+        seen.add(l)
+        ds = f.whole_defs(l)
+        if len(ds) != 1 or ds[0][0] != "assign" or ds[0][3][0] != "use":
+            return None
+        p = op_place(ds[0][3][1])
+        if p is None:
+            return None
+        if any(isinstance(e, list) and e[0] == "d" and e[1] == "Some" for e in place_projs(p)):
+            base = place_local(p)
+            for d in f.whole_defs(base):
+                if d[0] == "call" and NEXT_LIKE.search(d[2].get("fn") or "") and "Range<usize>" in " ".join(d[2].get("targs", [])):
+                    # the iterator local: find the Range aggregate it was built from
+                    it = _root_local(f, d[2]["args"][0])
+                    for bb2, si, pl, rv, sp in f.assigns():
+                        if rv[0] == "agg" and rv[1][0] == "adt" and rv[1][1].endswith("::Range") and len(rv[2]) == 2:
+                            tgt = place_local(pl)
+                            if tgt == it or _flows_local(f, tgt, it):
+                                if _len_of(ev, f, rv[2][1], coll):
+                                    return "loop variable of a range ending at len() of the same collection"
+            return None
+        l = place_local(p)
+    return None
+
+
+def _flows_local(f, a, b, depth=0):
+    """does local a flow into local b through moves / into_iter?"""
+    if a == b:
+        return True
+    if depth > 6:
+        return False
+    for bb, si, pl, rv, sp in f.assigns():
+        if rv[0] == "use" and op_local(rv[1]) == a and isinstance(pl, int):
+            if _flows_local(f, pl, b, depth + 1):
+                return True
+    for bb, c in f.calls():
+        if c["args"] and op_local(c["args"][0]) == a and re.search(r"IntoIterator>?::into_iter$", c.get("fn") or ""):
+            if _flows_local(f, place_local(c["dest"]), b, depth + 1):
+                return True
+    return False
+
+
 def r7_u32_overflow(ctx):
     r = Result("R7b", "no overflow-checked arithmetic on u32 values that come from a request position (line / character parameters): "
                       "`line + 1` on u32::MAX panics in builds with overflow checks and wraps to line 0 otherwise")
@@ -956,6 +1089,9 @@ def r7_unwrap(ctx):
         key = "R7c|%s|%s" % (f.id, what)
         if recv and re.search(r"sync::Mutex::<T>::lock$|sync::RwLock::<T>::(read|write)$", recv):
             r.ok(sample={"unwrap": key, "accepted": "lock poisoning"} if len(r.samples) < 2 else None)
+        elif recv and re.search(r"serde_json::(ser::)?to_string(_pretty)?$", recv) and _serialises_json_value(f, c["args"][0]):
+            # serialising a serde_json::Value (object keys are strings, no user Serialize impl involved) cannot fail
+            r.ok(sample={"unwrap": key, "accepted": "serde_json::to_string* of a serde_json::Value"} if len(r.samples) < 3 else None)
         elif key in REVIEWED:
             r.review(key, REVIEWED[key])
         elif reviewed_what.get(what) and seen_what[what] <= reviewed_what[what]:
@@ -965,6 +1101,20 @@ def r7_unwrap(ctx):
     r.counts["unwrap_sites"] = n
     r.floor("unwrap/expect sites", n, 10)
     return r
+
+
+def _serialises_json_value(f, op, depth=0):
+    l = op_local(op)
+    if l is None or depth > 6:
+        return False
+    for d in f.whole_defs(l):
+        if d[0] == "call":
+            ta = d[2].get("targs", [])
+            t0 = (ta[0] if ta else "").replace("&", "").strip()
+            return bool(re.fullmatch(r"(std::vec::Vec<)?serde_json::Value>?|\[serde_json::Value\]", t0))
+        if d[0] == "assign" and d[3][0] == "use":
+            return _serialises_json_value(f, d[3][1], depth + 1)
+    return False
 
 
 def _origin_res(f, op, depth=0):
